@@ -951,3 +951,160 @@ class DBOpen(MvccSpec):
 
 
 SPECS += [GetConnection, DBOpen]
+
+
+# ======================================================================================
+# C02: who makes the transaction boundaries happen - Connection.open / afterCompletion
+# ======================================================================================
+class BoundarySpec(MvccSpec):
+    props = ('C02',)
+
+    def mk(self, c, explicit):
+        tm = c.fresh_opaque('transaction_manager')
+        me = inst(c, 'ZODB.Connection:Connection', transaction_manager=NONE, explicit_transactions=VBool(False),
+                  opened=NONE, _reset_counter=c.fresh_int('_reset_counter'),
+                  _storage=c.fresh_opaque('mvcc_instance'), _cache=c.fresh_opaque('cache'))
+        c.ghost['bd'] = {'me': me, 'tm': tm, 'explicit': explicit}
+        return me, tm
+
+    def hooks(self, c):
+        g = lambda cc: cc.ghost['bd']
+
+        def oattr(cc, v, name, node):
+            if v.tag == 'transaction_manager' and name == 'explicit':
+                return VBool(g(cc)['explicit'])
+            return None
+
+        def ometh(cc, v, name, args, kwargs, node):
+            cc.event('call', v.tag, name, tuple(args))
+            return NONE
+
+        def recorder(nm):
+            def f(cc, args, kwargs, node):
+                cc.event('self-call', nm, tuple(args[1:]))
+                return NONE
+            return f
+
+        def has_attr(cc, interp, args, kwargs, node):
+            if isinstance(args[0], VOpaque) and args[0].tag == 'mvcc_instance':
+                return VBool(z3.Bool(fresh_name('storage_has_afterCompletion')))
+            return None
+        hk = {'opaque_attr': oattr, 'opaque_method': ometh, 'opaque_is_none': lambda cc, v: False,
+              'call:ZODB.Connection:Connection.newTransaction': recorder('newTransaction'),
+              'call:ZODB.Connection:Connection._resetCache': recorder('_resetCache'),
+              'prim:builtins.hasattr': lambda cc, interp, a, k, n: VBool(z3.Bool(fresh_name('has_afterCompletion')))}
+        timestamp.install(hk)
+        return hk
+
+
+class ConnectionOpen(BoundarySpec):
+    """Connection.open (run by DB.open for new AND pooled connections): the connection takes the caller's transaction
+    manager, starts a new cache first if resetCaches() was called since, crosses a transaction boundary
+    (newTransaction: pending invalidations applied, new snapshot bound) unless the manager is in explicit mode, and
+    REGISTERS itself with the manager so that every later begin/commit/abort is a boundary for it too."""
+    func = 'ZODB.Connection:Connection.open'
+    cases = ('implicit', 'explicit')
+
+    def setup(self, c, case=None):
+        me, tm = self.mk(c, case == 'explicit')
+        return {'self': me, 'transaction_manager': tm, 'delegate': VBool(False)}
+
+    def modifies(self, c, E):
+        me = c.ghost['bd']['me']
+        return {(me.id, 'transaction_manager'), (me.id, 'explicit_transactions'), (me.id, 'opened')}
+
+    def outcomes(self, c, E):
+        g = c.ghost['bd']
+        stale_cache = c.obj(g['me']).f['_reset_counter'].t != 0
+
+        def post(c, E, r):
+            S = c.obj(g['me']).f
+            sc = [e for e in c.events if e[0] == 'self-call']
+            nt = [k for k, e in enumerate(sc) if e[1] == 'newTransaction']
+            rc = [k for k, e in enumerate(sc) if e[1] == '_resetCache']
+            reg = [e for e in c.events if e[0] == 'call' and e[1] == 'transaction_manager' and e[2] == 'registerSynch']
+            out = [('uses-the-callers-transaction-manager', S['transaction_manager'] is g['tm']),
+                   ('explicit-mode-taken-from-the-manager', isinstance(S['explicit_transactions'], VBool) and
+                    contract.same_value(c, S['explicit_transactions'], VBool(g['explicit']))),
+                   ('registered-for-the-managers-transaction-boundaries', len(reg) == 1 and len(reg[0][3]) == 1 and
+                    isinstance(reg[0][3][0], VRef) and reg[0][3][0].id == g['me'].id),
+                   ('cache-reset-iff-resetCaches-was-called-since', z3.BoolVal(bool(rc)) == stale_cache),
+                   ('at-most-one-boundary-and-one-reset', len(nt) <= 1 and len(rc) <= 1)]
+            if g['explicit']:
+                out.append(('explicit-mode.no-boundary-before-begin', not nt))
+            else:
+                out.append(('crosses-a-transaction-boundary-on-open (pooled connections too)', len(nt) == 1))
+                if nt and rc:
+                    out.append(('cache-reset-before-the-boundary', rc[0] < nt[0]))
+            return out
+        return [Outcome('ok', post=post)]
+
+
+class AfterCompletion(BoundarySpec):
+    """Connection.afterCompletion (called by the manager after every commit and abort): the end of a transaction is
+    a boundary - pending invalidations are applied and a new snapshot bound is taken - unless the manager is in
+    explicit mode (then begin() is the boundary)."""
+    func = 'ZODB.Connection:Connection.afterCompletion'
+    cases = ('implicit', 'explicit')
+
+    def setup(self, c, case=None):
+        me, tm = self.mk(c, case == 'explicit')
+        c.obj(me).f['explicit_transactions'] = VBool(case == 'explicit')
+        c.obj(me).f['transaction_manager'] = tm
+        t = c.fresh_opaque('transaction')
+        c.ghost['bd']['txn'] = t
+        return {'self': me, 'transaction': t}
+
+    def modifies(self, c, E):
+        return set()
+
+    def outcomes(self, c, E):
+        g = c.ghost['bd']
+
+        def post(c, E, r):
+            nt = [e for e in c.events if e[0] == 'self-call' and e[1] == 'newTransaction']
+            if g['explicit']:
+                return [('explicit-mode.no-boundary-here', not nt)]
+            return [('the-end-of-a-transaction-is-a-boundary', len(nt) == 1 and len(nt[0][2]) >= 1 and
+                     nt[0][2][0] is g['txn'])]
+        return [Outcome('ok', post=post)]
+
+
+SPECS += [ConnectionOpen, AfterCompletion]
+
+
+class BeforeInstance(MvccSpec):
+    """MVCCAdapter.before_instance(before): a historical adapter over the adapter's OWN storage, fixed at exactly the
+    bound given (the real HistoricalStorageAdapter constructor runs)."""
+    func = 'ZODB.mvccadapter:MVCCAdapter.before_instance'
+    props = ('C15',)
+
+    def setup(self, c, case=None):
+        st = new_mstorage(c)
+        c.ghost['mstorage'] = st
+        alock = prims.new_lock(c, 'adapter._lock', reentrant=False, held=0)
+        me = inst(c, ADAPTER, _storage=st, _lock=alock, _instances=demostorage.new_set(c, '_instances'))
+        before = c.fresh_bytes(8, 'before')
+        c.ghost['bi'] = {'before': before, 'st': st}
+        return {'self': me, 'before': before}
+
+    def modifies(self, c, E):
+        return set()
+
+    def outcomes(self, c, E):
+        g = c.ghost['bi']
+
+        def post(c, E, r):
+            ok = isinstance(r, VRef) and c.obj(r).cls == HIST
+            out = [('returns-a-historical-adapter', ok)]
+            if ok:
+                f = c.obj(r).f
+                out += [('fixed-at-the-given-bound', isinstance(f.get('_before'), VBytes) and
+                         bytes_num(c, f['_before']) == bytes_num(c, g['before'])),
+                        ('over-the-adapters-own-storage', isinstance(f.get('_storage'), VRef) and
+                         f['_storage'].id == g['st'].id)]
+            return out
+        return [Outcome('ok', post=post)]
+
+
+SPECS.append(BeforeInstance)
